@@ -94,12 +94,20 @@ class PreemptibleGrant:
         self._released = True
         self._resource._do_release(self._amount)
 
-    def _do_preempt(self) -> None:
-        """Called by the resource when this grant is preempted."""
+    def _mark_preempted(self) -> None:
+        """Flag the grant as preempted; the resource takes the capacity back."""
         self._preempted = True
         self._released = True
+
+    def _notify_preempted(self) -> None:
+        """Fire ``on_preempt``. Called once the resource's books are consistent again."""
         if self._on_preempt is not None:
             self._on_preempt()
+
+    def _do_preempt(self) -> None:
+        """Called by the resource when this grant is preempted."""
+        self._mark_preempted()
+        self._notify_preempted()
 
     def __repr__(self) -> str:
         if self._preempted:
@@ -265,11 +273,18 @@ class PreemptibleResource(Entity):
         for grant in candidates:
             if self._available >= needed:
                 break
-            grant._do_preempt()
-            self._active_grants.remove(grant)
+            if grant.released:
+                # Released or preempted meanwhile by a re-entrant call made from an
+                # earlier victim's on_preempt callback: nothing left to take back.
+                continue
+            # Take the capacity back first, notify afterwards: on_preempt may call
+            # release()/acquire() on this resource and must find consistent books.
+            grant._mark_preempted()
+            self._active_grants = [g for g in self._active_grants if g is not grant]
             self._available += grant.amount
             self._preemptions += 1
             freed += grant.amount
+            grant._notify_preempted()
             logger.debug(
                 "[%s] Preempted grant (priority=%.1f, amount=%d)",
                 self.name,
